@@ -281,7 +281,9 @@ Proof.
   induction lvs as [|[lf w] lvs IH]; intros Hc Hst.
   - exists []. split; [reflexivity|constructor].
   - assert (Hc' : (if N.eqb (leaf_class yl vr (lf, w)) 0 then case_class yl vr lvs
-                   else leaf_class yl vr (lf, w)) = 0%N) by exact Hc.
+                   else if N.eqb (leaf_class yl vr (lf, w)) 11
+                        then (if N.eqb (case_class yl vr lvs) 0 then leaf_class yl vr (lf, w) else case_class yl vr lvs)
+                        else leaf_class yl vr (lf, w)) = 0%N) by exact Hc.
     clear Hc. rename Hc' into Hc. destruct (N.eqb (leaf_class yl vr (lf, w)) 0) eqn:E0.
     + apply N.eqb_eq in E0. inversion Hst; subst. simpl in H1.
       destruct (leaf_rt_ok vr lf w E0 H1) as (w' & Hrt & Hv).
@@ -289,7 +291,8 @@ Proof.
       exists (w' :: ws). split.
       * unfold roundtrip in *. simpl. rewrite Hrt, Hws. reflexivity.
       * constructor; assumption.
-    + apply N.eqb_neq in E0. congruence.
+    + apply N.eqb_neq in E0. destruct (N.eqb (leaf_class yl vr (lf, w)) 11); [|congruence].
+      destruct (N.eqb (case_class yl vr lvs) 0) eqn:E1; [congruence|]. apply N.eqb_neq in E1. congruence.
 Qed.
 
 End Text.
